@@ -54,6 +54,13 @@ MC_V1_LIVE = model('MC_StreamV1', 'MC_StreamV1_live.cfg', 'MC_StreamV1_live.cfg'
 MC_IPTEXT = model('MC_IpText', 'MC_IpText_quick.cfg', 'MC_IpText_thorough.cfg', need=['ok'], cap=dict(quick=5000, thorough=200000), tt=3000)
 MC_CONVERT = model('MC_Convert', 'MC_Convert.cfg', 'MC_Convert.cfg', need=['op'])
 
+TLV_CURSOR_APALACHE = [
+    ('cursor abstraction: base case', ['--cinit=ConstFaithful', '--init=Init', '--inv=IndInv', '--length=0'], 'ok', 'TlvCursor'),
+    ('cursor abstraction: inductive step (sections of any length, any number of calls)', ['--cinit=ConstFaithful', '--init=IndInit', '--inv=IndInv', '--length=1'], 'ok', 'TlvCursor'),
+    ('cursor abstraction: IndInv implies in-range, len/3 + 1 bound, stop after error', ['--cinit=ConstFaithful', '--init=IndInit', '--inv=Safe', '--length=0'], 'ok', 'TlvCursor'),
+    ('a cursor that does not stop after an overrun is refuted', ['--cinit=ConstSkewed', '--init=Init', '--inv=Safe', '--length=4'], 'violation', 'TlvCursor'),
+]
+
 PROPS = {
     'C01': dict(
         gens=dict(quick=V1_QUICK + IPTEXT_QUICK, thorough=V1_THOROUGH + IPTEXT_THOROUGH),
@@ -69,6 +76,7 @@ PROPS = {
              'corruptions); non-trivial = at least 16 bytes starting with the v2 signature; distinct = distinct inputs',
     ),
     'C03': dict(
+        apalache=TLV_CURSOR_APALACHE,
         gens=dict(
             quick=V1_QUICK + g('stream', v2good=60, v2corrupt=60, v2ctrl=300, v2len=120, mixed=60) + TLV_QUICK
             + g('stream', bigtrail=3, huge=2) + g('builder', bseq=60, rebuild=30, bwire=20) + g('writer', wvals=60, wints=1, wbig=1, wpersist=10, wraw=6) + g('format', fmtshapes=60, fmtrand=60)
@@ -133,6 +141,7 @@ PROPS = {
              'call-sequence prefixes; paired sessions differ only in reservations / batching',
     ),
     'C11': dict(
+        apalache=TLV_CURSOR_APALACHE,
         gens=dict(quick=TLV_QUICK + g('stream', v2good=120, bparse=100), thorough=TLV_THOROUGH + g('stream', v2good=4000, bparse=3000)),
         models=[MC_TLV, MC_V2],
         rule='one event per next() on arbitrary sections, plus the TLV walk of every accepted v2 header; non-trivial '
